@@ -41,6 +41,16 @@ CHECKS = {
         'Print Assumptions: closed under the global context.',
    technique='Coq invariant proof by induction over the operation history + lock-step correspondence',
    design='DESIGN.md §3 C15'),
+ 'C20': dict(
+   text='Machine-checked proof (Coq), over the method table of class Qty REGENERATED from hszinc/datatypes.py on every run, that under Python\'s operator dispatch '
+        'every binary operator (incl. divmod, pow, reflected forms, Quantity on either or both sides), the unary operators and conversions, 3-argument pow and the six '
+        'comparisons evaluate exactly the plain operation on the value (expressions are free syntax, so results, types and exceptions coincide for all numbers); '
+        'Quantity-vs-Quantity comparisons raise TypeError iff the units differ. A wrong operator, swapped operands, a missing unwrap or a missing method changes the table and breaks the proofs.',
+   note='Translator (harness/srcdata.py gen_qty) classifies every method body of Qty and fails closed; Qty._cmp_op is pinned textually. Modelled, tied by the correspondence on a catalogue of 29+ numbers: '
+        'CPython binary_op1/rich-compare dispatch, builtin numbers returning NotImplemented for a Quantity operand, pow(v, x, None) == v ** x, a < b == b > a for numbers. '
+        '__index__ is outside the property (conversions int/float/complex). Pint mode out of scope. Print Assumptions: closed under the global context.',
+   technique='translator-regenerated model + Coq proof by computation over the operator enumeration + correspondence on all operator x operand combinations',
+   design='DESIGN.md §3 C20'),
 }
 PENDING = {}
 for i in range(1, 21):
